@@ -28,18 +28,32 @@ Definition side_oplus (v : list R) := not_at_wrap (nth 2 v 0 + nth 5 v 0).
 Definition side_ominus (v : list R) := not_at_wrap (nth 2 v 0 - nth 5 v 0).
 Definition side_inv (v : list R) := not_at_wrap (- nth 2 v 0).
 
+Lemma SE2_oplus_wrt_self_tan : tangent_ok SE2_oplus (mat_of SE2_jacobian_self_oplus_other_wrt_self__SE2) 6 0 3.
+Proof. tan_ring. Qed.
 Lemma SE2_oplus_wrt_self : is_jacobian_on side_oplus SE2_oplus (mat_of SE2_jacobian_self_oplus_other_wrt_self__SE2) 6 0 3.
 Proof. jac_wrap side_oplus. Qed.
+Lemma SE2_oplus_wrt_other_tan : tangent_ok SE2_oplus (mat_of SE2_jacobian_self_oplus_other_wrt_other__SE2) 6 3 3.
+Proof. tan_ring. Qed.
 Lemma SE2_oplus_wrt_other : is_jacobian_on side_oplus SE2_oplus (mat_of SE2_jacobian_self_oplus_other_wrt_other__SE2) 6 3 3.
 Proof. jac_wrap side_oplus. Qed.
+Lemma SE2_ominus_wrt_self_tan : tangent_ok SE2_ominus (mat_of SE2_jacobian_self_ominus_other_wrt_self__SE2) 6 0 3.
+Proof. tan_ring. Qed.
 Lemma SE2_ominus_wrt_self : is_jacobian_on side_ominus SE2_ominus (mat_of SE2_jacobian_self_ominus_other_wrt_self__SE2) 6 0 3.
 Proof. jac_wrap side_ominus. Qed.
+Lemma SE2_ominus_wrt_other_tan : tangent_ok SE2_ominus (mat_of SE2_jacobian_self_ominus_other_wrt_other__SE2) 6 3 3.
+Proof. tan_ring. Qed.
 Lemma SE2_ominus_wrt_other : is_jacobian_on side_ominus SE2_ominus (mat_of SE2_jacobian_self_ominus_other_wrt_other__SE2) 6 3 3.
 Proof. jac_wrap side_ominus. Qed.
+Lemma SE2_point_wrt_self_tan : tangent_ok SE2_oplus_point (mat_of SE2_jacobian_self_oplus_point_wrt_self__R2) 5 0 3.
+Proof. tan_ring. Qed.
 Lemma SE2_point_wrt_self : is_jacobian SE2_oplus_point (mat_of SE2_jacobian_self_oplus_point_wrt_self__R2) 5 0 3.
 Proof. jac_poly. Qed.
+Lemma SE2_point_wrt_point_tan : tangent_ok SE2_oplus_point (mat_of SE2_jacobian_self_oplus_point_wrt_point__R2) 5 3 2.
+Proof. tan_ring. Qed.
 Lemma SE2_point_wrt_point : is_jacobian SE2_oplus_point (mat_of SE2_jacobian_self_oplus_point_wrt_point__R2) 5 3 2.
 Proof. jac_poly. Qed.
+Lemma SE2_inverse_jac_tan : tangent_ok SE2_inv (mat_of SE2_jacobian_inverse) 3 0 3.
+Proof. tan_ring. Qed.
 Lemma SE2_inverse_jac : is_jacobian_on side_inv SE2_inv (mat_of SE2_jacobian_inverse) 3 0 3.
 Proof. jac_wrap side_inv. Qed.
 
